@@ -650,8 +650,19 @@ pub fn parse_type<'t>(ctx: Context<'t>) -> ParseResult<'t, Type> {
 
         T::Identifier(_) => {
             let (ctx, ass) = type_assignable(ctx)?;
-            let (ctx, vars) =
-                parse_beg_end_comma_sep!(ctx, T::LeftParen, T::RightParen, &parse_type)?;
+            let (ctx, vars) = if matches!(ctx.token(), T::LeftParen) {
+                // Line breaks are insignificant between the parentheses.
+                let (ctx, skip_newlines) = ctx.push_skip_newlines(true);
+                let sep = |ctx: Context<'t>| {
+                    Ok((expect!(ctx, T::Comma, "Expected ',' as seperator"), ()))
+                };
+                let end = |ctx: Context<'t>| Ok((ctx, matches!(ctx.token(), T::RightParen)));
+                let (ctx, vars) = parse_sep_end_by(ctx.skip(1), &sep, &end, &parse_type)?;
+                let ctx = ctx.pop_skip_newlines(skip_newlines);
+                (ctx.skip(1), vars)
+            } else {
+                (ctx, Vec::new())
+            };
             (ctx, UserDefined(ass, vars))
         }
 
@@ -754,6 +765,8 @@ pub fn parse_type<'t>(ctx: Context<'t>) -> ParseResult<'t, Type> {
 
         // Tuple
         T::LeftParen => {
+            // Line breaks are insignificant between the parentheses.
+            let (ctx, skip_newlines) = ctx.push_skip_newlines(true);
             let mut ctx = ctx.skip(1);
             let mut types = Vec::new();
             // Tuples may (and probably will) contain multiple types.
@@ -778,6 +791,7 @@ pub fn parse_type<'t>(ctx: Context<'t>) -> ParseResult<'t, Type> {
                     }
                 }
             }
+            let ctx = ctx.pop_skip_newlines(skip_newlines);
             let ctx = expect!(ctx, T::RightParen, "Expected ')' after tuple or grouping");
             if is_tuple {
                 (ctx, Tuple(types))
@@ -789,7 +803,9 @@ pub fn parse_type<'t>(ctx: Context<'t>) -> ParseResult<'t, Type> {
         // List
         T::LeftBracket => {
             // Lists only contain a single type.
+            let (ctx, skip_newlines) = ctx.push_skip_newlines(true);
             let (ctx, ty) = parse_type(ctx.skip(1))?;
+            let ctx = ctx.pop_skip_newlines(skip_newlines);
             let ctx = expect!(ctx, T::RightBracket, "Expected ']' after list type");
             (ctx, List(Box::new(ty)))
         }
@@ -861,6 +877,8 @@ fn assignable_call<'t>(ctx: Context<'t>, callee: Assignable) -> ParseResult<'t, 
 /// Parse an [AssignableKind::Index].
 fn assignable_index<'t>(ctx: Context<'t>, indexed: Assignable) -> ParseResult<'t, Assignable> {
     let span = ctx.span();
+    // Line breaks are insignificant between the brackets.
+    let (ctx, skip_newlines) = ctx.push_skip_newlines(true);
     let mut ctx = expect!(ctx, T::LeftBracket, "Expected '[' when indexing");
 
     let expr =
@@ -870,6 +888,7 @@ fn assignable_index<'t>(ctx: Context<'t>, indexed: Assignable) -> ParseResult<'t
         } else {
             raise_syntax_error!(ctx, "Expected 'int' when parsing tuple indexing");
         };
+    let ctx = ctx.pop_skip_newlines(skip_newlines);
     let ctx = expect!(ctx, T::RightBracket, "Expected ']' after index");
 
     use AssignableKind::Index;
